@@ -38,4 +38,4 @@ Proof. vm_compute. split; reflexivity. Qed.
 
 (* axioms the property theorems of this file depend on (one traversal for all of them) *)
 Definition C10_theorems := (@C10, @C10_laws, @C10_and_or, @C10_extract).
-Print Assumptions C10_theorems.
+Redirect "assumptions/C10" Print Assumptions C10_theorems.
